@@ -59,9 +59,12 @@
         checksum of the logical database (C04_history).
         A node may change role inside the history: files from the stream
         (GRecv) between its own transactions.  Drop and import are steps too.
-   NOT proved (C04_history_partial): a partial SQLite checkpoint that copies an older version than the log's last
-   one (readers holding it back), and transactions LiteFS fails inside
-   (I/O errors); these are re-checked on
+        A partial SQLite checkpoint may copy an older version than the log's
+        last (W2BackfillOld); a finalisation of the journal may fail inside
+        LiteFS before anything is published (AFail) and be repeated.
+   NOT proved (C04_history_partial): histories outside these steps - writes
+   forwarded by a replica that holds the halt lock, a WAL commit LiteFS fails
+   inside, a node whose page size changes; these are re-checked on
    every run by the correspondence (the model re-executes every generated
    history and must reproduce every reported position) and by the harness'
    raw-file recomputation. *)
@@ -287,6 +290,7 @@ Proof. exact open_checksum_example. Qed.
      W2Checkpoint             LiteFS's own checkpoint;
      W2Backfill p             SQLite copies the log's last committed version of page p (1 <= p <= database size) into the
                               database file - a write LiteFS sees in WAL mode (a checkpoint that goes part of the way);
+     W2BackfillOld p q        ... or any other version q of a page that is in the log (readers hold the checkpoint back);
      W2SqlRestart             SQLite copies every page of the log within the database size, cuts the file to the database
                               size, and starts the log over with its next write - LiteFS forgets its WAL bookkeeping
                               ([sql_ckpt_ops]; the pages written are determined by the state, nothing is assumed).
@@ -306,7 +310,7 @@ Example C04_wal_full_history_nonvacuous :
   let pw h := mkPg (fl h) 0 true in
   let hs := [HTx [] [AWrite 1 (pg 11); AWrite 2 (pg 12)] 2] in
   let sw := [AWrite 1 (pw 13)] in
-  let os := [W2Commit [(2, pw 22); (3, pw 33); (2, pw 23)] 3; W2Backfill 2; W2Commit [(1, pw 14)] 2; W2SqlRestart;
+  let os := [W2Commit [(2, pw 22); (3, pw 33); (2, pw 23)] 3; W2BackfillOld 2 (pw 22); W2Backfill 2; W2Commit [(1, pw 14)] 2; W2SqlRestart;
              W2Commit [(3, pw 35); (1, pw 15)] 3; W2Checkpoint] in
   exists s1 s2,
     wf_hist (init 2097153) hs /\ run_hsteps (init 2097153) hs = Some s1 /\
@@ -358,7 +362,7 @@ Example C04_history_nonvacuous :
   let pg h n := mkPg (fl h) n false in
   let pw h n := mkPg (fl h) n true in
   let x3 a b c := fl (N.lxor (N.lxor (fl a) (fl b)) (fl c)) in
-  let gs := [GJ (HTx [] [AWrite 1 (pg 11 2); AWrite 2 (pg 12 0)] 2);
+  let gs := [GJ (HTx [] [AWrite 1 (pg 11 2); AWrite 2 (pg 19 0); AFail 2; AWrite 2 (pg 12 0)] 2);
              GRestart;
              GSwitch [] [AWrite 1 (pw 13 2)] 2;
              GW (W2Commit [(1, pw 14 3); (3, pw 33 0); (2, pw 23 0)] 3);
